@@ -205,16 +205,18 @@ def run_once(XSH, src, limit=12):
 
 
 def sigint_works():
+    """'interrupts' (KeyboardInterrupt raised), 'swallowed' (nothing happens within 1 s) or the name of
+    any other exception the handler chain raises."""
     try:
-        os.kill(os.getpid(), signal.SIGINT)
+        signal.raise_signal(signal.SIGINT)  # delivered to this (the main) thread, synchronously
         t0 = time.time()
         while time.time() - t0 < 1.0:
             time.sleep(0.01)
-        return False
+        return "swallowed"
     except KeyboardInterrupt:
-        return True
-    except BaseException:  # noqa: BLE001 - anything else means Ctrl-C no longer interrupts the way it should
-        return False
+        return "interrupts"
+    except BaseException as e:  # noqa: BLE001
+        return type(e).__name__
 
 
 def run(ctx, scn):
@@ -263,18 +265,26 @@ def run(ctx, scn):
             if isinstance(diff["handlers"], list):
                 diff["handlers"] = {"snapshot": diff["handlers"]}
             diff["handlers"][sname] = [_handler_name(h0), _handler_name(h1)]
+    # Ctrl-C is tried with whatever handlers the command left behind; only then are the session's own
+    # handlers put back so that the next scenario starts clean
+    ok_int = sigint_works()
     for s_, h0 in zip(SIGS, ctx["pristine"]):
-        signal.signal(getattr(signal, s_), h0)  # put them back so that the next scenario starts clean
+        signal.signal(getattr(signal, s_), h0)
     if "std" in diff:
         sys.stdout, sys.stderr = sys.__stdout__, sys.__stderr__
-    ok_int = sigint_works()
-    # what the property names: descriptors, running children, helper threads, cwd, sys.std*, environment,
-    # Ctrl-C.  Stale-but-self-healing handlers and not-yet-reaped zombies are reported as diagnostics.
     # Verdict-bearing: descriptors, running children, cwd, environment, Ctrl-C - deterministic after settling.
     # Advisory only (timing-dependent without full schedule control, see DESIGN.md 2.4): helper threads still
     # alive, sys.std* swapped by overlapping alias threads, a run exceeding the time limit, stale handlers, zombies.
     diagnostics = {k: diff.pop(k) for k in ("handlers", "zombies", "threads", "std") if k in diff}
     if any(e == "HANG" for e in excs):
         diagnostics["hang"] = excs.count("HANG")
+    # Ctrl-C: raising anything but KeyboardInterrupt is a deterministic failure of the handler chain; a
+    # swallowed Ctrl-C was seen on the pinned tree but depends on which helper thread restored its saved
+    # handler last (timing): advisory
+    if ok_int == "swallowed":
+        diagnostics["ctrl_c_swallowed"] = 1
+    if ok_int not in ("interrupts", "swallowed"):
+        diff["ctrl_c"] = f"a self-sent SIGINT raised {ok_int} instead of KeyboardInterrupt"
+    ok_int = ok_int in ("interrupts", "swallowed")
     obs = {"clean": not diff and ok_int, "diagnostics": {k: str(v)[:200] for k, v in diagnostics.items()}, "diff": {k: (str(v)[:300]) for k, v in diff.items()}, "sigint": ok_int, "exc": excs[-1], "kinds": sorted(diff)}
     return {"scn": scn, "src": src, "steps": [{"cmd": "run", "obs": obs}]}
